@@ -315,7 +315,7 @@ func (e *Env) Do(r Req) *Result {
 	res.Begin = vsched.Step()
 	res.ClockBegin = vsched.PeekClock()
 	e.Log(Event{Step: res.Begin, Kind: "req-begin", Res: res})
-	rec := httptest.NewRecorder()
+	rec := &yieldingRecorder{ResponseRecorder: httptest.NewRecorder()}
 	func() {
 		defer func() {
 			if p := recover(); p != nil {
@@ -333,6 +333,26 @@ func (e *Env) Do(r Req) *Result {
 	res.End = vsched.Step()
 	e.Log(Event{Step: res.End, Kind: "req-end", Res: res})
 	return res
+}
+
+// yieldingRecorder adds one scheduling point right before the response leaves pike
+// (the window in which a body that aliases shared memory can still be overwritten).
+type yieldingRecorder struct {
+	*httptest.ResponseRecorder
+	yielded bool
+}
+
+func (r *yieldingRecorder) point() {
+	if !r.yielded {
+		r.yielded = true
+		vsched.Yield(ResClient)
+	}
+}
+
+func (r *yieldingRecorder) WriteHeader(code int) { r.point(); r.ResponseRecorder.WriteHeader(code) }
+func (r *yieldingRecorder) Write(b []byte) (int, error) {
+	r.point()
+	return r.ResponseRecorder.Write(b)
 }
 
 // SelfBody is the self-identifying body of the fake origin.
